@@ -82,6 +82,20 @@ SERIES = (
 )
 
 
+def _long_series(n, shuffled):
+    """n samples on [0, 4] (step 4/(n-1) rounded to 1/64 so that times are dyadic and some coincide with interval boundaries);
+    shuffled: a fixed permutation (i*37 mod n) - getValuesInIntervals makes no assumption about the order of the samples"""
+    rows = [(round(64 * 4 * i / (n - 1)) / 64.0, i) for i in range(n)]
+    if shuffled:
+        step = 37 if n % 37 else 41
+        rows = [rows[(i * step) % n] for i in range(n)]
+    return tuple(rows)
+
+
+LONG_SERIES = tuple(_long_series(n, sh) for n in (100, 101, 150, 257, 300, 1000) for sh in (False, True))
+SERIES = SERIES + LONG_SERIES
+
+
 def _check_gvii(case):
     ivs, si = case
     E = [(a, b, "x") for a, b in ivs]
@@ -314,11 +328,26 @@ def parts(tier):
             if s:
                 for hi in (4.0, 6.0):
                     yield (s, hi)
+        # the size axis
+        for n, layout, e in D.size_family(quick):
+            ivs = tuple((a, b) for a, b, _ in e)
+            yield (ivs, e[-1][1])
+            yield (ivs, e[-1][1] + 1.0)
+            yield (ivs[1:], e[-1][1] + 1.0)
 
     def gen_gvii():
+        nshort = len(SERIES) - len(LONG_SERIES)
         for s in sets:
-            for si in range(len(SERIES)):
+            for si in range(nshort):
                 yield (s, si)
+        # the size axis: long sample series (100 .. 1000 rows, in time order and in a fixed shuffled order) and long tiers
+        for s in sets[:: 4 if quick else 1]:
+            for si in range(nshort, len(SERIES)):
+                yield (s, si)
+        for n in (17, 33, 258):
+            e = tuple((a / 64.0 if n > 64 else a / 8.0, b / 64.0 if n > 64 else b / 8.0) for a, b in ((i, i + 0.75) for i in range(n)) if (b / (64.0 if n > 64 else 8.0)) <= 4)
+            for si in range(nshort, len(SERIES)):
+                yield (e, si)
 
     def gen_gvap():
         for n in range(1, 4 if quick else 5):
@@ -333,6 +362,13 @@ def parts(tier):
                     yield (data, "asc", pts)
                     if n > 1:
                         yield (data, "rev", pts)
+        # the size axis: long series (in time order and reversed) x points at / between samples far down the list
+        for m in (100, 257, 300):
+            data = tuple(i / 4.0 for i in range(m))
+            for k in D.probe_indices(m):
+                for pts in ((k / 4.0,), (k / 4.0, k / 4.0 + 0.125), (0.0, k / 4.0 + 0.25)):
+                    yield (data, "asc", tuple(sorted(set(pts))))
+                    yield (data, "rev", tuple(sorted(set(pts))))
 
     def gen_ovl():
         for a, b, c, d in itertools.product(G, repeat=4):
@@ -379,7 +415,8 @@ def parts(tier):
                        "length, entries + non-entries tile [0,max]; timestamps = sorted set of boundaries", bounds={}),
         InputPart("point-timestamps", lambda: iter(D.point_sets(G, 3)), _check_pt_timestamps, rule="all point subsets", bounds={}),
         InputPart("getValuesInIntervals", gen_gvii, _check_gvii,
-                  rule="all interval sets x 5 series (sorted, reversed, with ties/shuffled, off-boundary, empty): per interval exactly the samples "
+                  rule="all interval sets x 5 series (sorted, reversed, with ties/shuffled, off-boundary, empty), and interval sets / tiers of up to 258 "
+                       "intervals x 12 long series (100 .. 1000 rows, in time order and shuffled): per interval exactly the samples "
                        "with start <= t <= end", bounds={}),
         InputPart("getValuesAtPoints", gen_gvap, _check_gvap,
                   rule="all series of <=%d sample times with repetition (ascending and reversed) x all point sets of <=2 (on and between "
